@@ -280,6 +280,7 @@ def explore_processor(case, seed=0, max_rows=400):
     got = []
     rows = X.tolist()
     first = {}
+    handed_out = []
     for xr in rows:
         try:
             inst, x2, act = gp.get_graph(xr)
@@ -292,6 +293,12 @@ def explore_processor(case, seed=0, max_rows=400):
         a = arch_of(inst)
         first[tuple(xr)] = a
         got.append(a)
+        # the caller owns the instance: what is stored on it must not come back with a later decode
+        try:
+            inst.set_metric_value(b.node[case['start'][0]], 7.0)
+        except Exception:
+            pass
+        handed_out.append(inst)
     dup = [g for g in set(got) if got.count(g) > want_n.get(g, 1)][:2]
     if dup:
         return fail('two-rows-one-architecture', str(dup))
@@ -310,6 +317,9 @@ def explore_processor(case, seed=0, max_rows=400):
             return fail('decode-raises:%s' % type(e).__name__, 'row %s (second pass): %s: %s' % (xr, type(e).__name__, e))
         if arch_of(inst) != first[tuple(xr)]:
             return fail('second-decode-gives-another-architecture', 'row %s: first %s, then %s' % (xr, first[tuple(xr)], arch_of(inst)))
+        if any(inst is h for h in handed_out) or inst.metric_values:
+            return fail('returned-instance-not-pristine', 'row %s: the second decode returned %s' % (
+                xr, 'an object that was handed out before' if any(inst is h for h in handed_out) else 'an instance carrying values %s stored on an earlier one' % list(inst.metric_values.values())))
     # any vector of the declared space (valid or not), with both encoders: a final feasible architecture of the model, and the
     # corrected vector decodes to the same architecture
     if want:
